@@ -66,6 +66,17 @@ HAND = [
     "from_text format:csv \"a,b\\n1,2\" | select {a}",
     "from t | filter a == null | filter b != null",
     "from t | group a (aggregate {s = sum b}) | filter s > 1 | sort s | take 3",
+    # expressions that constant-fold before they reach the back end: what is left must still be an expression of the dialect
+    "from t | select {c = case [false => a, true => b]}",
+    "from t | select {c = case [1 == 1 => a, b > 0 => b]}",
+    "from t | select {c = case [false => a, 2 > 3 => b, true => c]} | filter (case [false => a, true => b]) > 1",
+    "let flag = false\nfrom t | derive {net = case [flag => a - b, true => a]} | sort (case [flag => a, true => b])",
+    "from t | select {c = case [false => a]}",
+    "from t | select {c = case [true => a, false => b]}",
+    "from t | filter (true && a > 1) | filter (false || b > 1) | select {x = null ?? a, y = a ?? null, z = !false, w = -(-1), v = (1 + 2) * a}",
+    "from t | group g (aggregate {s = sum (case [false => a, true => b])}) | filter (case [1 > 2 => s, true => g]) > 0",
+    "from t | join u (true) | select {t.a, u.b}",
+    "from t | join side:left u (1 == 1) | select {t.a, u.b}",
 ]
 
 
